@@ -109,6 +109,7 @@ inductive Prog where
   | discard (k : Prog)
   | force (k : Prog)
   | recordData (key : String) (v : Val) (k : Prog)
+  | setEnabled (b : Bool) (k : Prog)              -- `enable_recording()` / `disable_recording()` called by the running code
   | playData (key : String) (k : Out → Prog)
 
 inductive Ev where
@@ -192,6 +193,11 @@ def doDiscard (s : St) : St :=
   | some a => resetActive (addLog s (.abort a.id))
   | none => s
 
+/-- `enable_recording` / `disable_recording` (after F15: switching recording off aborts the recording in flight - from
+that point on its interceptions would go uncaptured) -/
+def doSetEnabled (s : St) (b : Bool) : St :=
+  if b then { s with enabled := true } else { doDiscard s with enabled := false }
+
 /-- `force_sample_recording` -/
 def doForce (s : St) : St :=
   match s.active with
@@ -273,6 +279,7 @@ def exec : St → Prog → St × End
   | s, .discard k => exec (doDiscard s) k
   | s, .force k => exec (doForce s) k
   | s, .recordData key v k => exec (doRecordData s key v) k
+  | s, .setEnabled b k => exec (doSetEnabled s b) k
   | s, .playData key k => exec s (k (doPlayData s key))
   | s, .callIn cfg args body k =>
     if !shouldIntercept s then
@@ -522,6 +529,7 @@ def runPlain : List (String × Args) → Prog → List (String × Args) × End
   | j, .discard k => runPlain j k
   | j, .force k => runPlain j k
   | j, .recordData _ _ k => runPlain j k
+  | j, .setEnabled _ k => runPlain j k
   | j, .playData _ k => runPlain j (k (.ret (.atom "None")))
   | j, .callIn cfg args body k =>
     match runPlain (j ++ [(cfg.name, args)]) body with
@@ -540,6 +548,7 @@ def Prog.All (Qi : InCfg → Args → Prog → Prop) (Qo : OutCfg → Args → P
   | .discard k => k.All Qi Qo
   | .force k => k.All Qi Qo
   | .recordData _ _ k => k.All Qi Qo
+  | .setEnabled _ k => k.All Qi Qo
   | .playData _ k => ∀ o, (k o).All Qi Qo
 
 /-- idle: neither recording nor replaying, no sticky force, numbering restarted, suppression flag clear -/
@@ -561,8 +570,8 @@ inductive RunResult where
 def execRun (ao : AliasOracle) (s : St) : Run → St × RunResult
   | .op cfg p => let r := runOperation ao cfg s p; (r.1, .op r.2)
   | .play cfg id p => let r := runPlay ao cfg s id p; (r.1, .play r.2)
-  | .enable => ({ s with enabled := true }, .unit)
-  | .disable => ({ s with enabled := false }, .unit)
+  | .enable => (doSetEnabled s true, .unit)
+  | .disable => (doSetEnabled s false, .unit)
 
 def execAll (ao : AliasOracle) (s : St) : List Run → St
   | [] => s
